@@ -12,8 +12,18 @@ pub fn threads() -> usize {
 /// Apply `f` to every index in 0..n on all cores; results are returned in index order.
 pub fn par_map<R: Send, F: Fn(usize) -> R + Sync>(n: usize, f: F) -> Vec<R> {
     let nt = threads().max(1).min(n.max(1));
+    // small chunks when there are few jobs per thread (jobs of very different cost must not queue up behind one worker)
+    par_map_chunked(n, (n / (nt * 16)).clamp(1, 64), f)
+}
+
+/// one job at a time per worker: for jobs that are expensive and of very different cost (process runs)
+pub fn par_map_each<R: Send, F: Fn(usize) -> R + Sync>(n: usize, f: F) -> Vec<R> {
+    par_map_chunked(n, 1, f)
+}
+
+fn par_map_chunked<R: Send, F: Fn(usize) -> R + Sync>(n: usize, chunk: usize, f: F) -> Vec<R> {
+    let nt = threads().max(1).min(n.max(1));
     let next = AtomicUsize::new(0);
-    let chunk = 64usize;
     let mut parts: Vec<Vec<(usize, R)>> = Vec::new();
     std::thread::scope(|s| {
         let mut hs = Vec::new();
